@@ -225,7 +225,8 @@ fn guard_section<'s>(t: &Target<'_>, g: &Box<dyn Held + 's>, write: bool, body: 
 }
 
 /// Perform one acquisition step. Returns the key for the next step.
-pub fn acquire(t: &Target<'_>, write: bool, flavour: Flavour, body: Body, key: ThreadKey, panic_id: u32) -> ThreadKey {
+pub fn acquire(t: &Target<'_>, write: bool, flavour: Flavour, body: Body, key: ThreadKey, panic_id: u32) -> (ThreadKey, bool) {
+	let succeeded = std::cell::Cell::new(false);
 	let api = flavour.api(write);
 	let w = what(t, api);
 	let kind = if flavour.is_try() { CallKind::TryAcquire } else { CallKind::Acquire };
@@ -244,6 +245,7 @@ pub fn acquire(t: &Target<'_>, write: bool, flavour: Flavour, body: Body, key: T
 			Flavour::Guard | Flavour::GuardUnlock => {
 				let key = owned_key.take().unwrap();
 				let g = if write { t.coll.lock(key) } else { t.coll.read(key) };
+				succeeded.set(true);
 				check_acquired(t, write, &w);
 				guard_section(t, &g, write, body, &w, panic_id);
 				rt::set_call_kind(CallKind::Release);
@@ -265,6 +267,7 @@ pub fn acquire(t: &Target<'_>, write: bool, flavour: Flavour, body: Body, key: T
 				match r {
 					Ok(g) => {
 						rt::observe(1);
+						succeeded.set(true);
 						check_acquired(t, write, &w);
 						guard_section(t, &g, write, body, &w, panic_id);
 						rt::set_call_kind(CallKind::Release);
@@ -291,6 +294,7 @@ pub fn acquire(t: &Target<'_>, write: bool, flavour: Flavour, body: Body, key: T
 				let mut f = |v: &dyn Visit| {
 					count += 1;
 					rt::observe(1);
+					succeeded.set(true);
 					check_acquired(t, write, &w);
 					rt::set_call_kind(CallKind::Body);
 					if key_free() {
@@ -331,7 +335,8 @@ pub fn acquire(t: &Target<'_>, write: bool, flavour: Flavour, body: Body, key: T
 			}
 		}
 	}));
-	match r {
+	let ok = succeeded.get();
+	let k = match r {
 		Ok(Some(k)) => k,
 		Ok(None) => {
 			if let Some(k) = lent_key {
@@ -378,7 +383,8 @@ pub fn acquire(t: &Target<'_>, write: bool, flavour: Flavour, body: Body, key: T
 				_ => resume_unwind(p),
 			}
 		}
-	}
+	};
+	(k, ok)
 }
 
 pub fn run_thread(tid: usize, steps: &[Step], targets: &[Target<'_>]) {
@@ -393,7 +399,7 @@ pub fn run_thread(tid: usize, steps: &[Step], targets: &[Target<'_>]) {
 		rt::set_pc(pc as u32);
 		match step {
 			Step::Acq { target, write, flavour, body } => {
-				key = acquire(&targets[*target], *write, *flavour, *body, key, (tid * 100 + pc) as u32);
+				key = acquire(&targets[*target], *write, *flavour, *body, key, (tid * 100 + pc) as u32).0;
 			}
 			Step::IsPoisoned(t) => {
 				rt::yield_point(2);
